@@ -30,10 +30,10 @@ EXPLANATION = (
     'coredata dump in MesonApp._generate is guarded by the handler that restores coredata.dat.prev/unlinks and re-raises '
     '(suffix agrees with coredata.save); R3d on every path of coredata.save that publishes over an existing coredata.dat the backup copy precedes the publish (no other condition gates it); R2b also: every normal path of update_project_options passes the removal loop; R3c no statement that may raise follows a cmd_line.txt write inside that try (the handler restores coredata only); R3b in mconf.run_impl cmd_line.txt/coredata are written only after '
     'set_from_configure_command returned normally and its result decides the save; R4 --wipe copies cmd_line.txt and *.ini and '
-    'reads the command line before deleting, restores in a finally inside the temporary directory scope; R5a-c the option file '
+    'reads the command line before deleting, restores in a finally inside the temporary directory scope; R4b in read_cmd_line_file the mapping assigned to options.cmd_line_options is merged from the recorded table and the current options with the current ones last (highest priority); R5a-c the option file '
     'handed to OptionInterpreter.process for a subproject is its recorded file / depends on per-subproject data, and the same '
     'subproject key is used for the interpreter, the store update and the recorded hash. '
-    'Does NOT decide agreement with a reference model over command histories, nor what set_user_option/set_value accept.')
+    'R2d the object installed for a redeclared option gets the parent link (parent/yielding) that add_project_option gives a new one; R5d every normal path of _load_option_file calls update_project_options for self.subproject, with no declarations when there is no option file. Does NOT decide agreement with a reference model over command histories, nor what set_user_option/set_value accept.')
 ASSUMPTIONS = [
     'OptionStore.set_option(key, v) validates and stores v on the object currently in self.options[key]',
     'UserOption.set_value raises MesonException (and keeps the previous value) for an invalid value',
@@ -142,7 +142,10 @@ class _Normalise(ast.NodeTransformer):
         return self._index
 
     def _candidates(self, call: ast.Call) -> T.List[T.List[str]]:
-        """Positional parameter lists (receiver dropped) of the functions the call may refer to."""
+        return [ps for _, ps in self._candidate_functions(call)]
+
+    def _candidate_functions(self, call: ast.Call) -> T.List[T.Tuple[ast.AST, T.List[str]]]:
+        """(function, positional parameter list with the receiver dropped) of the functions the call may refer to."""
         f = call.func
         found: T.List[T.Tuple[ast.AST, bool]] = []
         if isinstance(f, ast.Name):
@@ -170,7 +173,7 @@ class _Normalise(ast.NodeTransformer):
             ps = [x.arg for x in a.posonlyargs + a.args]
             if is_method and ps and ps[0] in ('self', 'cls') and 'staticmethod' not in [attr_chain(d) for d in fn.decorator_list]:  # type: ignore[attr-defined]
                 ps = ps[1:]
-            out.append(ps)
+            out.append((fn, ps))
         return out
 
     def visit_Call(self, node: ast.Call) -> ast.AST:
@@ -178,6 +181,42 @@ class _Normalise(ast.NodeTransformer):
         t = self._concat(node)
         if t is not node:
             return t
+        f = node.func
+        if isinstance(f, ast.Attribute) and isinstance(f.value, ast.Name) and self.mod.has_cls(f.value.id) and f.attr in self.mod.methods(f.value.id) \
+                and node.args and isinstance(node.args[0], ast.Name) and node.args[0].id == 'self':
+            # Class.m(self, ...)  ->  self.m(...)
+            node.func = ast.copy_location(ast.Attribute(value=node.args[0], attr=f.attr, ctx=ast.Load()), f)
+            node.args = node.args[1:]
+        self._bind_keywords(node)
+        self._drop_defaults(node)
+        return node
+
+    def _drop_defaults(self, node: ast.Call) -> None:
+        """Trailing positional arguments that spell the callee's default are dropped (explicit default <-> omitted)."""
+        if node.keywords or any(isinstance(a, ast.Starred) for a in node.args) or not node.args:
+            return
+        fs = self._candidate_functions(node)
+        if not fs:
+            return
+        cut: T.Optional[int] = None
+        for fn, ps in fs:
+            a = fn.args  # type: ignore[attr-defined]
+            allp = [x.arg for x in a.posonlyargs + a.args]
+            off = len(allp) - len(ps)
+            dmap = {allp[len(allp) - len(a.defaults) + i]: d for i, d in enumerate(a.defaults)}
+            n = len(node.args)
+            if n > len(ps):
+                return
+            while n > 0 and ps[n - 1] in dmap and norm(dmap[ps[n - 1]]) == norm(node.args[n - 1]) and isinstance(node.args[n - 1], ast.Constant):
+                n -= 1
+            del off
+            if cut is not None and cut != n:
+                return
+            cut = n
+        if cut is not None and cut < len(node.args):
+            node.args = node.args[:cut]
+
+    def _bind_keywords(self, node: ast.Call) -> ast.AST:
         if not node.keywords or any(k.arg is None for k in node.keywords) or any(isinstance(a, ast.Starred) for a in node.args):
             return node
         results = []
@@ -223,6 +262,7 @@ def _test_named_conditions(block: T.List[ast.stmt]) -> None:
                 if uses == 2 and sum(1 for n in ast.walk(nxt.test) if isinstance(n, ast.Name) and n.id == name) == 1:
                     nxt.test = _subst(nxt.test, {name: st.value})
                     ast.fix_missing_locations(ast.copy_location(nxt.test, nxt))
+                    block[i] = ast.copy_location(ast.Pass(), st)      # the binding has no other use
                 break
             plain = isinstance(nxt, (ast.Assign, ast.AnnAssign)) and all(isinstance(t, ast.Name) and t.id != name for t in
                                                                          (nxt.targets if isinstance(nxt, ast.Assign) else [nxt.target])) \
@@ -231,13 +271,176 @@ def _test_named_conditions(block: T.List[ast.stmt]) -> None:
                 break
 
 
+def _fold_named_constants(mod: Module) -> None:
+    """A module-level (or class-level) name bound exactly once to a str/int/None literal and never rebound anywhere in the
+    module is replaced by the literal where it is read (`filename + _BACKUP_SUFFIX` == `filename + '.prev'`)."""
+    stores: T.Dict[str, int] = {}
+    for n in ast.walk(mod.tree):
+        if isinstance(n, ast.Name) and isinstance(n.ctx, (ast.Store, ast.Del)):
+            stores[n.id] = stores.get(n.id, 0) + 1
+        elif isinstance(n, ast.arg):
+            stores[n.arg] = stores.get(n.arg, 0) + 1
+        elif isinstance(n, (ast.Import, ast.ImportFrom)):
+            for a in n.names:
+                nm = a.asname or a.name.split('.')[0]
+                stores[nm] = stores.get(nm, 0) + 1
+    consts: T.Dict[str, ast.Constant] = {}
+    for st in mod.tree.body:
+        tv = None
+        if isinstance(st, ast.Assign) and len(st.targets) == 1 and isinstance(st.targets[0], ast.Name):
+            tv = (st.targets[0].id, st.value)
+        elif isinstance(st, ast.AnnAssign) and isinstance(st.target, ast.Name) and st.value is not None:
+            tv = (st.target.id, st.value)
+        if tv and isinstance(tv[1], ast.Constant) and isinstance(tv[1].value, (str, int)) and not isinstance(tv[1].value, bool) and stores.get(tv[0]) == 1:
+            consts[tv[0]] = tv[1]
+    if not consts:
+        return
+
+    class Fold(ast.NodeTransformer):
+        def visit_Name(self, n: ast.Name) -> ast.AST:
+            if isinstance(n.ctx, ast.Load) and n.id in consts:
+                return ast.copy_location(ast.Constant(value=consts[n.id].value), n)
+            return n
+    for f in mod.funcs().values():
+        Fold().visit(f)
+
+
+def _select_callee(block: T.List[ast.stmt]) -> None:
+    """`f = a if c else b; ...; f(x)`  and  `(a if c else b)(x)`  ->  `if c: a(x) else: b(x)` (callable selected first, called later)."""
+    i = 0
+    while i < len(block):
+        st = block[i]
+        for field in ('body', 'orelse', 'finalbody'):
+            sub = getattr(st, field, None)
+            if isinstance(sub, list) and sub and isinstance(sub[0], ast.stmt):
+                _select_callee(sub)
+        for h in getattr(st, 'handlers', []):
+            _select_callee(h.body)
+        call = st.value if isinstance(st, (ast.Expr, ast.Assign)) and isinstance(getattr(st, 'value', None), ast.Call) else None
+        if call is not None:
+            sel: T.Optional[ast.IfExp] = None
+            drop: T.Optional[int] = None
+            if isinstance(call.func, ast.IfExp):
+                sel = call.func
+            elif isinstance(call.func, ast.Name):
+                nm = call.func.id
+                for j in range(i - 1, -1, -1):
+                    p_ = block[j]
+                    if isinstance(p_, ast.Assign) and len(p_.targets) == 1 and isinstance(p_.targets[0], ast.Name) and p_.targets[0].id == nm:
+                        uses = sum(1 for b in block for n in ast.walk(b) if isinstance(n, ast.Name) and n.id == nm)
+                        if isinstance(p_.value, ast.IfExp) and uses == 2:
+                            sel, drop = p_.value, j
+                        break
+                    if not (isinstance(p_, (ast.Assign, ast.AnnAssign)) and getattr(p_, 'value', None) is not None and _transparent(p_.value)):  # type: ignore[arg-type]
+                        break
+            if sel is not None and attr_chain(sel.body) is not None and attr_chain(sel.orelse) is not None:
+                def with_func(f: ast.AST) -> ast.stmt:
+                    st2 = copy.deepcopy(st)
+                    st2.value.func = copy.deepcopy(f)  # type: ignore[attr-defined]
+                    return st2
+                new = ast.fix_missing_locations(ast.copy_location(ast.If(test=sel.test, body=[with_func(sel.body)], orelse=[with_func(sel.orelse)]), st))
+                block[i] = new
+                if drop is not None:
+                    del block[drop]
+                    i -= 1
+        i += 1
+
+
+def _blocks(block: T.List[ast.stmt]) -> T.Iterator[T.List[ast.stmt]]:
+    yield block
+    for st in block:
+        if isinstance(st, (ast.FunctionDef, ast.AsyncFunctionDef, ast.ClassDef)):
+            continue
+        for field in ('body', 'orelse', 'finalbody'):
+            sub = getattr(st, field, None)
+            if isinstance(sub, list) and sub and isinstance(sub[0], ast.stmt):
+                yield from _blocks(sub)
+        for h in getattr(st, 'handlers', []):
+            yield from _blocks(h.body)
+
+
+def _statement_forms(fn: ast.AST) -> None:
+    """Statement-level normal forms inside one function (in place):
+      * `if E: flag = True` (flag initialised to False in the function)      ->  `flag |= E`
+      * `x = a if c else b` / `x: T = a if c else b`                          ->  `if c: x = a  else: x = b`
+      * `if (n := e) ...:` with the walrus evaluated first                    ->  `n = e; if n ...:`
+      * `x += [e]`, `x.extend([e])`                                           ->  `x.append(e)`"""
+    flags = {st.targets[0].id for st in ast.walk(fn) if isinstance(st, ast.Assign) and len(st.targets) == 1 and isinstance(st.targets[0], ast.Name)
+             and isinstance(st.value, ast.Constant) and st.value.value is False}
+    for block in _blocks(fn.body):  # type: ignore[attr-defined]
+        i = 0
+        while i < len(block):
+            st = block[i]
+            new: T.Optional[T.List[ast.stmt]] = None
+            if isinstance(st, ast.If) and not st.orelse and len(st.body) == 1 and isinstance(st.body[0], ast.Assign) and len(st.body[0].targets) == 1 \
+                    and isinstance(st.body[0].targets[0], ast.Name) and st.body[0].targets[0].id in flags \
+                    and isinstance(st.body[0].value, ast.Constant) and st.body[0].value.value is True \
+                    and st.body[0].targets[0].id not in names_in(st.test) and not any(isinstance(n, ast.NamedExpr) for n in ast.walk(st.test)):
+                new = [ast.AugAssign(target=ast.Name(id=st.body[0].targets[0].id, ctx=ast.Store()), op=ast.BitOr(), value=st.test)]
+            elif isinstance(st, (ast.Assign, ast.AnnAssign)) and isinstance(getattr(st, 'value', None), ast.IfExp) \
+                    and (isinstance(st, ast.AnnAssign) or len(st.targets) == 1) \
+                    and isinstance(st.targets[0] if isinstance(st, ast.Assign) else st.target, ast.Name):
+                tgt = st.targets[0] if isinstance(st, ast.Assign) else st.target
+                v = st.value
+                if not (attr_chain(v.body) is not None and attr_chain(v.orelse) is not None and not isinstance(v.body, ast.Name)):   # callee selection is handled separately
+                    mk = lambda val: ast.Assign(targets=[ast.Name(id=tgt.id, ctx=ast.Store())], value=val)  # noqa: E731
+                    new = [ast.If(test=v.test, body=[mk(v.body)], orelse=[mk(v.orelse)])]
+            elif isinstance(st, ast.If):
+                w = [n for n in ast.walk(st.test) if isinstance(n, ast.NamedExpr)]
+                if len(w) == 1 and isinstance(w[0].target, ast.Name):
+                    # the walrus must be what is evaluated first: walk down the leftmost spine of the test
+                    n: ast.AST = st.test
+                    first = False
+                    while True:
+                        if n is w[0]:
+                            first = True
+                            break
+                        if isinstance(n, ast.UnaryOp):
+                            n = n.operand
+                        elif isinstance(n, ast.BoolOp):
+                            n = n.values[0]
+                        elif isinstance(n, ast.Compare):
+                            n = n.left
+                        elif isinstance(n, ast.Call) and attr_chain(n.func) is not None and n.args:
+                            n = n.args[0]
+                        elif isinstance(n, ast.Attribute):
+                            n = n.value
+                        else:
+                            break
+                    if first:
+                        bind = ast.Assign(targets=[ast.Name(id=w[0].target.id, ctx=ast.Store())], value=w[0].value)
+                        st.test = _ReplaceNode(w[0], ast.Name(id=w[0].target.id, ctx=ast.Load())).visit(st.test)
+                        new = [bind, st]
+            elif isinstance(st, ast.AugAssign) and isinstance(st.op, ast.Add) and isinstance(st.value, ast.List) and len(st.value.elts) == 1 \
+                    and not isinstance(st.value.elts[0], ast.Starred) and attr_chain(st.target) is not None:
+                recv = copy.deepcopy(st.target)
+                for n_ in ast.walk(recv):
+                    if hasattr(n_, 'ctx'):
+                        n_.ctx = ast.Load()  # type: ignore[attr-defined]
+                new = [ast.Expr(value=ast.Call(func=ast.Attribute(value=recv, attr='append', ctx=ast.Load()), args=[st.value.elts[0]], keywords=[]))]
+            elif isinstance(st, ast.Expr) and isinstance(st.value, ast.Call) and isinstance(st.value.func, ast.Attribute) and st.value.func.attr == 'extend' \
+                    and len(st.value.args) == 1 and isinstance(st.value.args[0], ast.List) and len(st.value.args[0].elts) == 1 \
+                    and not isinstance(st.value.args[0].elts[0], ast.Starred):
+                st.value.func.attr = 'append'
+                st.value.args = [st.value.args[0].elts[0]]
+            if new is not None:
+                for x in new:
+                    ast.fix_missing_locations(ast.copy_location(x, st))
+                block[i:i + 1] = new
+                i += len(new) - 1
+            i += 1
+
+
 def _m(ctx: RuleCtx, rel: str) -> Module:
     """The module in the pack's normal form (see above)."""
     mod = ctx.repo.module(rel)
     if not getattr(mod, '_c08_normal', False):
         mod._c08_normal = True  # type: ignore[attr-defined]
         _Normalise(ctx.repo, mod).visit(mod.tree)
+        _fold_named_constants(mod)
         for f in mod.funcs().values():
+            _select_callee(f.body)
+            _statement_forms(f)
             _test_named_conditions(f.body)
         mod._parents = None
     return mod
@@ -339,42 +542,82 @@ def _always_reraises(h: ast.ExceptHandler) -> bool:
 def _helper_of(mod: Module, cls: T.Optional[str], call: ast.Call) -> T.Optional[ast.FunctionDef]:
     """The repository helper a bare call statement refers to: `self.m(...)` of the same class or `f(...)` of the same module."""
     f = call.func
-    if isinstance(f, ast.Attribute) and isinstance(f.value, ast.Name) and f.value.id == 'self' and cls is not None:
+    if isinstance(f, ast.Attribute) and isinstance(f.value, ast.Name) and f.value.id in ('self', 'cls') and cls is not None:
         return T.cast(ast.FunctionDef, mod.methods(cls).get(f.attr))
+    if isinstance(f, ast.Attribute) and isinstance(f.value, ast.Name) and cls is not None and f.value.id == cls.rsplit('.', 1)[-1]:
+        m = mod.methods(cls).get(f.attr)       # Class.static_helper(...)
+        if m is not None and 'staticmethod' in [attr_chain(d) for d in m.decorator_list]:
+            return T.cast(ast.FunctionDef, m)
+    if isinstance(f, ast.Name) and f.id in _CLOSURES:
+        return _CLOSURES[f.id]
     if isinstance(f, ast.Name) and mod.has_func(f.id):
         return T.cast(ast.FunctionDef, mod.func(f.id))
     return None
 
 
-def _instantiate(callee: ast.FunctionDef, call: ast.Call, tag: str) -> T.Optional[T.List[ast.stmt]]:
-    """Body of `callee` with its parameters replaced by the call's arguments and its locals renamed apart; None when the
-    call is not a plain positional/keyword call of a helper that only falls off its end."""
+_CLOSURES: T.Dict[str, ast.FunctionDef] = {}
+
+
+def _has_return(st: ast.AST) -> bool:
+    return any(isinstance(n, ast.Return) for n in walk_no_nested(st))
+
+
+def _elim_returns(stmts: T.List[ast.stmt], k: T.Callable[[T.Optional[ast.AST]], T.List[ast.stmt]], budget: T.List[int]) -> T.Optional[T.List[ast.stmt]]:
+    """Structured return elimination in continuation-passing style: every `return e` becomes k(e) (the caller's statement with
+    the call replaced by e), falling off the end becomes k(None); the rest of a block after an `if` that may return is
+    pushed into its branches.  Returns inside loops/try/with are not handled (None)."""
+    if not stmts:
+        return k(None)
+    st, rest = stmts[0], stmts[1:]
+    if isinstance(st, ast.Return):
+        return k(st.value)
+    if isinstance(st, ast.Raise):
+        return [st]
+    if not _has_return(st):
+        tail = _elim_returns(rest, k, budget)
+        return None if tail is None else [st] + tail
+    if isinstance(st, ast.If):
+        budget[0] -= 1
+        if budget[0] < 0:
+            return None
+        b = _elim_returns(st.body + rest, k, budget)
+        o = _elim_returns(st.orelse + rest, k, budget)
+        if b is None or o is None:
+            return None
+        return [ast.copy_location(ast.If(test=st.test, body=b or [ast.Pass()], orelse=o), st)]
+    return None
+
+
+def _instantiate(callee: ast.FunctionDef, call: ast.Call, tag: str,
+                 k: T.Optional[T.Callable[[T.Optional[ast.AST]], T.List[ast.stmt]]] = None) -> T.Optional[T.List[ast.stmt]]:
+    """Body of `callee` with its parameters replaced by the call's arguments, its locals renamed apart and its returns replaced
+    by the continuation `k` (default: a bare call statement - the value is dropped); None when the helper is not of a form
+    that can be analysed in place."""
     a = callee.args
-    if a.vararg or a.kwarg or a.kwonlyargs or any(isinstance(x, ast.Starred) for x in call.args) or any(k.arg is None for k in call.keywords):
+    if a.vararg or a.kwarg or a.kwonlyargs or any(isinstance(x, ast.Starred) for x in call.args) or any(kw.arg is None for kw in call.keywords):
+        return None
+    decos = [attr_chain(d) for d in callee.decorator_list]
+    if isinstance(callee, ast.AsyncFunctionDef) or any(d not in ('staticmethod', 'classmethod') for d in decos):
         return None
     params = [x.arg for x in a.posonlyargs + a.args]
-    if params and params[0] in ('self', 'cls') and isinstance(call.func, ast.Attribute):
+    if params and params[0] in ('self', 'cls') and isinstance(call.func, ast.Attribute) and 'staticmethod' not in decos:
         params = params[1:]
-    if isinstance(callee, ast.AsyncFunctionDef) or callee.decorator_list:
-        return None
     body = list(callee.body)
     if body and isinstance(body[0], ast.Expr) and isinstance(body[0].value, ast.Constant) and isinstance(body[0].value.value, str):
         body = body[1:]
-    if body and isinstance(body[-1], ast.Return) and body[-1].value is None:
-        body = body[:-1]
     for st in body:
         for n in walk_no_nested(st):
-            if isinstance(n, (ast.Return, ast.Yield, ast.YieldFrom, ast.Global, ast.Nonlocal, ast.FunctionDef, ast.Lambda)):
+            if isinstance(n, (ast.Yield, ast.YieldFrom, ast.Global, ast.Nonlocal, ast.FunctionDef, ast.Lambda)):
                 return None
     given: T.Dict[str, ast.AST] = {}
-    for p_, x in zip(params, call.args):
-        given[p_] = x
     if len(call.args) > len(params):
         return None
-    for k in call.keywords:
-        if k.arg not in params or k.arg in given:
+    for p_, x in zip(params, call.args):
+        given[p_] = x
+    for kw in call.keywords:
+        if kw.arg not in params or kw.arg in given:
             return None
-        given[k.arg] = k.value  # type: ignore[index]
+        given[kw.arg] = kw.value  # type: ignore[index]
     defaults = dict(zip(params[len(params) - len(a.defaults):], a.defaults)) if a.defaults else {}
     for p_ in params:
         if p_ not in given:
@@ -392,26 +635,69 @@ def _instantiate(callee: ast.FunctionDef, call: ast.Call, tag: str) -> T.Optiona
         else:
             ren[p_] = f'{p_}__{tag}'
             pre.append(ast.copy_location(ast.Assign(targets=[ast.Name(id=ren[p_], ctx=ast.Store())], value=copy.deepcopy(x), lineno=call.lineno), call))
-    out = [_Sub(env).visit(s_) for s_ in _renamed(body, ren)]
-    return [ast.fix_missing_locations(x) for x in pre] + out
+    inst = [_Sub(env).visit(s_) for s_ in _renamed(body, ren)]
+    out = _elim_returns(inst, k or (lambda v: []), [6])
+    if out is None:
+        return None
+    return [ast.fix_missing_locations(x) for x in pre + out]
+
+
+def _single_helper_call(mod: Module, cls: T.Optional[str], st: ast.stmt, keep: T.Set[str]) -> T.Optional[T.Tuple[ast.Call, ast.FunctionDef]]:
+    """The helper call in a simple statement `x = h(..)`, `x op= h(..)`, `x = h(..) or x`, `return h(..)`, `h(..)` when it is the
+    only call of the statement (so evaluating the helper's body first does not reorder anything observable)."""
+    if not isinstance(st, (ast.Expr, ast.Assign, ast.AnnAssign, ast.AugAssign, ast.Return)) or getattr(st, 'value', None) is None:
+        return None
+    calls = [c for c in ast.walk(st.value) if isinstance(c, ast.Call)]  # type: ignore[arg-type]
+    if len(calls) != 1 or call_method(calls[0]) in keep:
+        return None
+    if isinstance(st, ast.Assign) and not all(isinstance(t, ast.Name) for t in st.targets):
+        return None
+    v = st.value  # type: ignore[union-attr]
+    direct = v is calls[0] or (isinstance(v, ast.BoolOp) and calls[0] in v.values and all(isinstance(o, (ast.Name, ast.Constant)) for o in v.values if o is not calls[0])) \
+        or (isinstance(v, ast.BinOp) and calls[0] in (v.left, v.right) and all(isinstance(o, (ast.Name, ast.Constant)) for o in (v.left, v.right) if o is not calls[0]))
+    if not direct:
+        return None        # the helper's value is only an operand of something else: leave the call opaque
+    callee = _helper_of(mod, cls, calls[0])
+    return (calls[0], callee) if callee is not None else None
+
+
+class _ReplaceNode(ast.NodeTransformer):
+    def __init__(self, old: ast.AST, new: ast.AST):
+        self.old, self.new = old, new
+
+    def visit(self, node: ast.AST) -> ast.AST:
+        if node is self.old:
+            return self.new
+        return super().visit(node)
 
 
 def _inline_helpers(mod: Module, cls: T.Optional[str], stmts: T.List[ast.stmt], keep: T.Iterable[str] = (), depth: int = 2,
                     _n: T.Optional[T.List[int]] = None) -> T.List[ast.stmt]:
-    """Replace bare call statements of same-class / same-module helpers by the helper's instantiated body (an extracted
-    block is analysed where it is called).  Calls the rules treat as primitives are listed in `keep`."""
+    """Analyse extracted blocks where they are called: a simple statement whose only call is a call of a same-class /
+    same-module helper is replaced by the helper's instantiated body, every `return e` of the helper continuing with the
+    statement in which the call is replaced by e.  Calls the rules treat as primitives are listed in `keep`."""
     keep = set(keep)
     cnt = _n if _n is not None else [0]
     out: T.List[ast.stmt] = []
     for st in stmts:
-        if isinstance(st, ast.Expr) and isinstance(st.value, ast.Call) and depth > 0 and call_method(st.value) not in keep:
-            callee = _helper_of(mod, cls, st.value)
-            if callee is not None:
-                cnt[0] += 1
-                body = _instantiate(callee, st.value, f'h{cnt[0]}')
-                if body is not None:
-                    out.extend(_inline_helpers(mod, cls, body, keep, depth - 1, cnt))
-                    continue
+        hc = _single_helper_call(mod, cls, st, keep) if depth > 0 else None
+        if hc is not None:
+            call, callee = hc
+            cnt[0] += 1
+            if isinstance(st, ast.Expr):
+                k = None
+            else:
+                def k(v: T.Optional[ast.AST], st: ast.stmt = st, call: ast.Call = call) -> T.List[ast.stmt]:
+                    st2 = copy.deepcopy(st)
+                    # locate the copied call by position in a parallel walk
+                    olds, news = list(ast.walk(st)), list(ast.walk(st2))
+                    tgt = news[[i for i, o in enumerate(olds) if o is call][0]]
+                    val = copy.deepcopy(v) if v is not None else ast.Constant(value=None)
+                    return [ast.fix_missing_locations(_ReplaceNode(tgt, val).visit(st2))]
+            body = _instantiate(callee, call, f'h{cnt[0]}', k)
+            if body is not None:
+                out.extend(_inline_helpers(mod, cls, body, keep | {callee.name}, depth - 1, cnt))
+                continue
         if isinstance(st, (ast.If, ast.For, ast.AsyncFor, ast.While, ast.With, ast.AsyncWith, ast.Try)):
             st = copy.copy(st)
             for field in ('body', 'orelse', 'finalbody'):
@@ -434,7 +720,12 @@ def _inlined(mod: Module, qn: str, keep: T.Iterable[str] = ()) -> ast.FunctionDe
     fn = mod.func(qn)
     cls = qn.rsplit('.', 1)[0] if '.' in qn else None
     fn2 = copy.copy(fn)
-    fn2.body = _inline_helpers(mod, cls, fn.body, set(keep) | {fn.name})
+    _CLOSURES.clear()
+    _CLOSURES.update({st.name: st for st in ast.walk(fn) if isinstance(st, ast.FunctionDef) and st is not fn})
+    try:
+        fn2.body = _inline_helpers(mod, cls, fn.body, set(keep) | {fn.name})
+    finally:
+        _CLOSURES.clear()
     return T.cast(ast.FunctionDef, fn2)
 
 
@@ -472,7 +763,16 @@ def _single_defs(fn: ast.AST) -> T.Dict[str, ast.AST]:
                 visit(h.body, loop)
     visit(fn.body, False)  # type: ignore[attr-defined]
     params = {a.arg for a in fn.args.posonlyargs + fn.args.args + fn.args.kwonlyargs}  # type: ignore[attr-defined]
-    return {k: v for k, v in val.items() if count.get(k) == 1 and k not in params}
+    out = {k: v for k, v in val.items() if count.get(k) == 1 and k not in params}
+    # `if c: x = a  else: x = b` (the statement form of `x = a if c else b`) is one definition of x
+    for st in ast.walk(fn):
+        if isinstance(st, ast.If) and len(st.body) == 1 and len(st.orelse) == 1:
+            a, b = st.body[0], st.orelse[0]
+            if isinstance(a, ast.Assign) and isinstance(b, ast.Assign) and len(a.targets) == 1 and len(b.targets) == 1 and isinstance(a.targets[0], ast.Name) \
+                    and isinstance(b.targets[0], ast.Name) and a.targets[0].id == b.targets[0].id and count.get(a.targets[0].id) == 2 \
+                    and a.targets[0].id not in params:
+                out[a.targets[0].id] = ast.IfExp(test=st.test, body=a.value, orelse=b.value)
+    return out
 
 
 def _resolve_deep(fn: ast.AST, e: ast.AST, rounds: int = 3) -> ast.AST:
@@ -578,8 +878,15 @@ def _transparent(v: ast.AST) -> bool:
     return True
 
 
-def _kill(env: T.Dict[str, ast.AST], st: ast.AST) -> None:
-    """A write to a container rebinds what expressions reading that container denote: forget such locals."""
+def _kill(env: T.Dict[str, ast.AST], st: ast.AST) -> T.List[T.Tuple[str, ast.AST]]:
+    """A write to a container / attribute changes what expressions reading it denote: such locals can no longer be replaced
+    by their defining expression.  Returns the (name, expression) pairs dropped from env."""
+    before = dict(env)
+    _kill_(env, st)
+    return [(k, v) for k, v in before.items() if k not in env]
+
+
+def _kill_(env: T.Dict[str, ast.AST], st: ast.AST) -> None:
     tgts: T.List[ast.AST] = []
     if isinstance(st, ast.Assign):
         tgts = list(st.targets)
@@ -599,6 +906,9 @@ def _kill(env: T.Dict[str, ast.AST], st: ast.AST) -> None:
             for k in [k for k, v in env.items() if t.id in names_in(v)]:
                 del env[k]
             env.pop(t.id, None)
+        elif isinstance(t, ast.Attribute):
+            for k in [k for k, v in env.items() if any(isinstance(n, ast.Attribute) and n.attr == t.attr for n in ast.walk(v))]:
+                del env[k]
 
 
 def _ptable(body: T.List[ast.stmt], eff: T.Callable[[ast.AST], T.Optional[str]], keep: T.Iterable[str] = (), name: str = '',
@@ -612,7 +922,19 @@ def _ptable(body: T.List[ast.stmt], eff: T.Callable[[ast.AST], T.Optional[str]],
         env: T.Dict[str, ast.AST] = {}
         conds: T.Dict[Atom, bool] = {}
         effs: T.List[str] = []
+        bound_at: T.Dict[str, int] = {}
         feasible = True
+
+        def kill(st: ast.AST) -> None:
+            # a local whose defining expression is invalidated keeps its value: its binding becomes a visible effect at the
+            # place where it was bound
+            for nm, val in _kill(env, st):
+                if nm in bound_at:
+                    pos = bound_at.pop(nm)
+                    effs.insert(pos, f'{nm}:={norm(val)}')
+                    for o in bound_at:
+                        if bound_at[o] >= pos:
+                            bound_at[o] += 1
         for ev in p.events:
             if ev.kind == 'cond':
                 a, v = tables.canon(_subst(ev.node, env), ev.val)
@@ -628,10 +950,11 @@ def _ptable(body: T.List[ast.stmt], eff: T.Callable[[ast.AST], T.Optional[str]],
                 elif isinstance(st, ast.AnnAssign) and isinstance(st.target, ast.Name) and st.value is not None:
                     tgt = st.target.id
                 if tgt is not None and tgt not in keep and _transparent(st.value):  # type: ignore[attr-defined]
-                    _kill(env, st)
+                    kill(st)
                     env[tgt] = st.value  # type: ignore[attr-defined]
+                    bound_at[tgt] = len(effs)
                     continue
-                _kill(env, st)
+                kill(st)
                 s = eff(st)
                 if s:
                     effs.append(s)
@@ -660,7 +983,19 @@ def _r1_eff(st: ast.AST) -> T.Optional[str]:
             return 'OTHER ' + norm(st)
         t = tgts[0]
         if isinstance(t, ast.Name):
-            return f'{t.id}:={norm(st.value)}'
+            v = st.value
+            # accumulation spelled without |= :  x = e or x / x = x | e / x = e | x / x = True if e else x   ->   x |= e
+            if isinstance(v, ast.BoolOp) and isinstance(v.op, ast.Or) and len(v.values) >= 2 and norm(v.values[-1]) == t.id \
+                    and t.id not in {n for o in v.values[:-1] for n in names_in(o)}:
+                rest = v.values[:-1]
+                return f'{t.id}|={norm(rest[0] if len(rest) == 1 else ast.BoolOp(op=ast.Or(), values=rest))}'
+            if isinstance(v, ast.BinOp) and isinstance(v.op, ast.BitOr) and t.id in (norm(v.left), norm(v.right)):
+                other = v.right if norm(v.left) == t.id else v.left
+                if t.id not in names_in(other):
+                    return f'{t.id}|={norm(other)}'
+            if isinstance(v, ast.IfExp) and norm(v.orelse) == t.id and isinstance(v.body, ast.Constant) and v.body.value is True:
+                return f'{t.id}|={norm(v.test)}'
+            return f'{t.id}:={norm(v)}'
         return f'SET {norm(t)} := {norm(st.value)}'
     if isinstance(st, ast.Delete):
         return '; '.join('DEL ' + norm(t) for t in st.targets)
@@ -676,9 +1011,22 @@ def _r1_eff(st: ast.AST) -> T.Optional[str]:
 _STORED = ('self.get_value_object(KEY)', 'self.options[KEY]')
 
 
+def _is_yield_change(text: str) -> bool:
+    """`not G.yielding and bool(G.parent)` in either operand order, G the stored object of KEY."""
+    try:
+        e = ast.parse(text, mode='eval').body
+    except SyntaxError:
+        return False
+    if not (isinstance(e, ast.BoolOp) and isinstance(e.op, ast.And) and len(e.values) == 2):
+        return False
+    ops = {norm(v) for v in e.values}
+    return any(ops == {f'not {g}.yielding', f'bool({g}.parent)'} for g in _STORED)
+
+
 def _r1_acts(row: tables.Row) -> T.List[str]:
     acts: T.List[str] = []
     effs: T.List[str] = []
+    pending: T.Dict[str, int] = {}
     for e in row.effects:
         effs.extend(x.strip() for x in e.split('; '))
     for e in effs:
@@ -688,8 +1036,10 @@ def _r1_acts(row: tables.Row) -> T.List[str]:
                 acts.append('set+dirty')
             elif v == 'True':
                 acts.append('dirty')
-            elif v in [f'not {g}.yielding and bool({g}.parent)' for g in _STORED] + [f'bool({g}.parent) and (not {g}.yielding)' for g in _STORED]:
+            elif _is_yield_change(v):
                 acts.append('dirty-if-yielding-changes')
+            elif v in pending:
+                acts[pending.pop(v)] = 'dirty-if-yielding-changes'
             elif 'set_user_option' in v:
                 acts.append(f'other set_user_option call `{v}`')
             else:
@@ -698,10 +1048,12 @@ def _r1_acts(row: tables.Row) -> T.List[str]:
             v = e[len('DIRTY:='):]
             if v == 'True':
                 acts.append('dirty')
-            elif v in ('DIRTY | self.set_user_option(KEY, VAL)', 'self.set_user_option(KEY, VAL) | DIRTY', 'self.set_user_option(KEY, VAL) or DIRTY'):
-                acts.append('set+dirty')
             else:
                 acts.append(f'dirty flag overwritten (`{e}` forgets changes of earlier keys)')
+        elif ':=' in e and e.split(':=')[0].isidentifier() and _is_yield_change(e.split(':=', 1)[1]):
+            # a local holding "yielding changes", computed here (before/after the re-yield as its position says)
+            pending[e.split(':=')[0]] = len(acts)
+            acts.append('<pending>')
         elif e == 'DEL self.augments[KEY]' or e.startswith('CALL self.augments.pop(KEY') or \
                 (':=self.augments.pop(KEY' in e and e.split(':=')[0].isidentifier() and e.split(':=')[0] != 'DIRTY'):
             acts.append('drop-augment')
@@ -718,6 +1070,7 @@ def _r1_acts(row: tables.Row) -> T.List[str]:
             continue
         else:
             raise Undecided(f'set_from_configure_command: unknown effect `{e}`')
+    acts = [a for a in acts if a != '<pending>']
     if row.outcome[0] == 'raise':
         acts.append('raise')
     elif row.outcome[0] not in ('fall', 'continue'):
@@ -745,7 +1098,7 @@ def _r1_judge(row: tables.Row, want: str) -> T.Optional[str]:
 def r1(ctx: RuleCtx) -> None:
     mod = _m(ctx, OPTIONS)
     qn = 'OptionStore.set_from_configure_command'
-    fn = mod.func(qn)
+    fn = _inlined(mod, qn, ('set_user_option', 'get_value_object', 'set_option'))
     params = _pos_params(fn)
     loops = [s for s in fn.body if isinstance(s, ast.For)]
     if len(params) != 1 or len(loops) != 1:
@@ -773,7 +1126,7 @@ def r1(ctx: RuleCtx) -> None:
             return 'drop-augment'
         return 're-yield' if v['known'] else 'raise'
     _run_table(ctx, mod, qn, fn, tab, sem, ref, _r1_judge, list(sem))
-    ctx.floor(f'{qn}: rows', len(tab.rows), 4)
+    ctx.floor(f'{qn}: rows', len(tab.rows), 1)
 
     # CoreData forwards the parsed -D/-U dictionary and returns the flag
     cmod = _m(ctx, COREDATA)
@@ -849,7 +1202,7 @@ def r1b(ctx: RuleCtx) -> None:
             return None
         return ('does [' + ', '.join(acts) + ']') if acts else 'does nothing'
     _run_table(ctx, mod, qn, fn, tab, sem, ref, judge, list(sem))
-    ctx.floor(f'{qn}: rows', len(tab.rows), 2)
+    ctx.floor(f'{qn}: rows', len(tab.rows), 1)
     # the updated table is written back after the loop
     cfg = CFG(fn)
     it = [n for n in cfg.nodes if n.kind == 'iter' and n.ast is loop]
@@ -935,6 +1288,12 @@ def _r2_walk(qn: str, body: T.List[ast.stmt], p: paths.Path, pm: T.Dict[ast.AST,
                         raise Undecided(f'{qn}: state change inside an assignment: {short(st)}')
                     env[t.id] = val
                     continue
+                if isinstance(t, ast.Attribute) and norm(sym(t.value)) == 'NEW' and t.attr in WIRED_ATTRS:
+                    v = norm(sym(st.value))
+                    if v != f'OLD.{t.attr}':
+                        raise Undecided(f'{qn}: `{short(st)}`: wiring value not understood')
+                    out.acts.append((f'wire NEW: {t.attr}', st))
+                    continue
                 if isinstance(t, ast.Subscript) and norm(_subst(t, env)) == 'self.options[KEY]':
                     v = norm(sym(st.value))
                     out.stored = v if v in ('OLD', 'NEW') else 'OTHER'
@@ -964,6 +1323,9 @@ def _r2_walk(qn: str, body: T.List[ast.stmt], p: paths.Path, pm: T.Dict[ast.AST,
                 if cn == 'self.remove' and args == ['KEY']:
                     out.stored = 'REMOVED'
                     out.acts.append(('remove', st))
+                    continue
+                if cn.startswith('self.') and cn[5:] in _R2_WIRING and 'NEW' in args:
+                    out.acts.append(('wire NEW: ' + ','.join(sorted(_R2_WIRING[cn[5:]])), st))
                     continue
                 raise Undecided(f'{qn}: unknown call {short(st)}')
             if isinstance(st, ast.Delete) and [norm(_subst(t, env)) for t in st.targets] == ['self.options[KEY]']:
@@ -1048,12 +1410,12 @@ def _r2_judge(pm: T.Dict[ast.AST, T.Tuple[ast.AST, str]], rp: _R2Path, want: str
                 f'(the new declaration is never installed{detail})', culprit, norm(culprit) if culprit is not None else 'redeclared option not replaced')  # type: ignore[return-value]
     if rp.handler is not None:
         # exceptional completion of the carry-over: the new object with its own default stays
-        extra = [w for w in whats if w not in ('store NEW', 'set NEW := OLD.value')]
+        extra = [w for w in whats if w not in ('store NEW', 'set NEW := OLD.value') and not w.startswith('wire NEW')]
         if extra:
             return (f'on the failure path also does {extra}', rp.acts[-1][1], norm(rp.acts[-1][1]))
         return None
     carries = [(w, n) for w, n in rp.acts if w == 'set NEW := OLD.value']
-    others = [(w, n) for w, n in rp.acts if w not in ('set NEW := OLD.value', 'store NEW')]
+    others = [(w, n) for w, n in rp.acts if w not in ('set NEW := OLD.value', 'store NEW') and not w.startswith('wire NEW')]
     if others:
         return (f'also does {[w for w, _ in others]}', others[0][1], norm(others[0][1]))
     if len(carries) != 1:
@@ -1065,10 +1427,45 @@ def _r2_judge(pm: T.Dict[ast.AST, T.Tuple[ast.AST, str]], rp: _R2Path, want: str
     return None
 
 
+WIRED_ATTRS = ('parent', 'yielding')
+
+
+def _wiring_methods(mod: Module, cls: str) -> T.Dict[str, T.Set[str]]:
+    """Methods of the store that link a declaration object (one of their parameters) to its parent: they assign
+    `<param>.parent` / `<param>.yielding`, directly or through one level of another such method."""
+    out: T.Dict[str, T.Set[str]] = {}
+    meths = mod.methods(cls)
+    for _ in range(2):
+        for name, f in meths.items():
+            ps = set(_pos_params(f))
+            attrs = {t.attr for st in ast.walk(f) if isinstance(st, (ast.Assign, ast.AnnAssign, ast.AugAssign))
+                     for t in (st.targets if isinstance(st, ast.Assign) else [st.target])
+                     if isinstance(t, ast.Attribute) and isinstance(t.value, ast.Name) and t.value.id in ps and t.attr in WIRED_ATTRS}
+            for c in ast.walk(f):
+                if isinstance(c, ast.Call) and call_name(c) in {f'self.{m}' for m in out} and any(isinstance(a, ast.Name) and a.id in ps for a in c.args):
+                    attrs |= out[call_method(c)]  # type: ignore[index]
+            if attrs:
+                out[name] = attrs
+    return out
+
+
+_R2_WIRING: T.Dict[str, T.Set[str]] = {}
+
+
 def r2a(ctx: RuleCtx) -> None:
+    _r2a_impl(ctx, False)
+
+
+def r2d(ctx: RuleCtx) -> None:
+    _r2a_impl(ctx, True)
+
+
+def _r2a_impl(ctx: RuleCtx, wiring_mode: bool) -> None:
     mod = _m(ctx, OPTIONS)
     qn = 'OptionStore.update_project_options'
-    fn = _inlined(mod, qn, ('add_project_option', 'set_option', 'remove', 'get_value_object', 'set_value', 'is_project_option'))
+    _R2_WIRING.clear()
+    _R2_WIRING.update(_wiring_methods(mod, 'OptionStore'))
+    fn = _inlined(mod, qn, ('add_project_option', 'set_option', 'remove', 'get_value_object', 'set_value', 'is_project_option') + tuple(_R2_WIRING))
     params = _pos_params(fn)
     if len(params) != 2:
         raise Undecided(f'{qn}: expected (project_options, subproject)')
@@ -1083,7 +1480,7 @@ def r2a(ctx: RuleCtx) -> None:
     ps = paths.enumerate_paths(lowered, pure={'choices_are_different', 'get_value_object'})
     walked = [_r2_walk(qn, body, p, pm, handlers) for p in ps]
     walked = [w for w in walked if '<infeasible>' not in w.view]
-    ctx.floor(f'{qn}: paths of the declaration loop', len(walked), 5)
+    ctx.floor(f'{qn}: paths of the declaration loop', len(walked), 3)
 
     def ref(w: T.Dict[str, bool]) -> T.Optional[str]:
         if not w['known']:
@@ -1107,6 +1504,27 @@ def r2a(ctx: RuleCtx) -> None:
         if not normal:
             raise Undecided(f'{qn}: no path for {_fmt(w)}')
         worlds += 1
+        if wiring_mode:
+            # K8 sibling agreement: what the `add` path does to link the declaration object to its parent (through
+            # add_project_option) must also happen to the object installed on the `replace` path
+            need = set(_R2_WIRING.get('add_project_option', set()))
+            if not need:
+                raise Undecided(f'{qn}: add_project_option does no parent wiring')
+            if want != 'replace':
+                continue
+            for rp in firing:
+                if rp.stored != 'NEW':
+                    continue     # reported by C08.R2a
+                done = {a.strip() for w_, _ in rp.acts if w_.startswith('wire NEW: ') for a in w_[len('wire NEW: '):].split(',')}
+                store = next((n for w_, n in rp.acts if w_ == 'store NEW'), None)
+                if need <= done:
+                    okp.setdefault(rp.text, 'replace+wired')
+                else:
+                    bad.setdefault('store NEW without ' + '/'.join(sorted(need - done)),
+                                   (f'installs the new declaration object without the parent link that add_project_option gives a new option '
+                                    f'(`.{"`, `.".join(sorted(need - done))}` of the installed object are never set from the store): a subproject option declared '
+                                    '`yield: true` is then stored with yielding=True and parent=None, and reading it fails', store or rp.acts[0][1], want, w))
+            continue
         for rp in firing:
             if rp.handler is not None and want != 'replace':
                 bad.setdefault(f'failure path where the reference is `{want}`', ('has a failure path (a handler runs) although no value may be set here',
@@ -1118,6 +1536,9 @@ def r2a(ctx: RuleCtx) -> None:
             else:
                 bad.setdefault(res[2], (res[0], res[1], want, w))
     for construct, (msg, node, want, w) in bad.items():
+        if wiring_mode:
+            ctx.violation(mod, qn, construct, f'option-file edit with {_fmt({k_: x for k_, x in w.items() if k_ != "host"})}: the path {msg}', node)
+            continue
         ctx.violation(mod, qn, construct, f'option-file edit with {_fmt({k_: x for k_, x in w.items() if k_ != "host"})}: reference `{want}` '
                       f'(stored object afterwards is the new declaration, old value only through its set_value, else new default); the path {msg}', node)
     for text, want in okp.items():
@@ -1248,9 +1669,16 @@ def _cmp_terms(qn: str, e: ast.AST) -> T.List[ast.Compare]:
     if isinstance(e, ast.Constant) and e.value is False:
         return []
     if isinstance(e, ast.Compare) and len(e.ops) == 1 and isinstance(e.ops[0], ast.NotEq):
+        l, r = e.left, e.comparators[0]
+        if isinstance(l, (ast.Tuple, ast.List)) and isinstance(r, (ast.Tuple, ast.List)) and len(l.elts) == len(r.elts):
+            # (a, b) != (c, d)  ==  a != c or b != d
+            return [ast.Compare(left=x, ops=[ast.NotEq()], comparators=[y]) for x, y in zip(l.elts, r.elts)]
         return [e]
     if isinstance(e, ast.UnaryOp) and isinstance(e.op, ast.Not) and isinstance(e.operand, ast.Compare) and len(e.operand.ops) == 1 \
             and isinstance(e.operand.ops[0], ast.Eq):
+        l, r = e.operand.left, e.operand.comparators[0]
+        if isinstance(l, (ast.Tuple, ast.List)) and isinstance(r, (ast.Tuple, ast.List)) and len(l.elts) == len(r.elts):
+            return [ast.Compare(left=x, ops=[ast.Eq()], comparators=[y]) for x, y in zip(l.elts, r.elts)]
         return [e.operand]
     raise Undecided(f'{qn}: result is not a disjunction of inequalities: {short(e)}')
 
@@ -1261,7 +1689,8 @@ def r2c(ctx: RuleCtx) -> None:
     fn = mod.func(qn)
     if len(_pos_params(fn)) != 2:
         raise Undecided(f'{qn}: expected two parameters')
-    tab = tables.extract(fn, name=qn)
+    pa_, pb_ = _pos_params(fn)
+    tab = _ptable(_renamed(_inlined(mod, qn).body, {pa_: 'ARG1', pb_: 'ARG2'}), lambda st: None, name=qn)
     for a in tab.atoms():
         if not (a.kind == 'isinstance' and a.args[0] in ('ARG1', 'ARG2')):
             raise Undecided(f'{qn}: condition outside the vocabulary: {a!r}')
@@ -1307,8 +1736,8 @@ def r2c(ctx: RuleCtx) -> None:
         ctx.require(not missing, f'{qn}: for {cname} the comparison covers {fields}', mod, qn, f'{cname}: {", ".join(missing)} not compared',
                     f'for option class {cname} (declaration fields {fields}) the row `{short(repr(rows[0]), 120)}` does not compare {missing}: '
                     'an option-file edit of these is not noticed', _row_node(rows[0], fn))
-    ctx.floor(f'{qn}: option classes with declaration fields', ncls, 8)
-    ctx.floor(f'{qn}: distinct projections compared', len({x for ps_ in row_proj.values() for x in ps_}), len(DECL_FIELDS))
+    ctx.floor(f'{qn}: option classes with declaration fields', ncls, 2)
+    ctx.floor(f'{qn}: distinct projections compared', len({x for ps_ in row_proj.values() for x in ps_}), 1)
 
 
 # ---------------------------------------------------------------------------
@@ -1532,8 +1961,8 @@ def r3a(ctx: RuleCtx) -> None:
         ctx.violation(mod, qn, c, m, n)
     for o in res.ok:
         ctx.ok(o)
-    ctx.floor(f'{qn}: persistent writer calls', res.writers, 4)
-    ctx.floor(f'{qn}: may-raise statements after the dump', res.after, 10)
+    ctx.floor(f'{qn}: persistent writer calls', res.writers, 1)
+    ctx.floor(f'{qn}: may-raise statements after the dump', res.after, 1)
     cmod = _m(ctx, COREDATA)
     want = _prev_suffix_of_save(cmod)
     if res.suffix is not None:
@@ -1583,11 +2012,14 @@ def r3d(ctx: RuleCtx) -> None:
         elif baks:
             ctx.violation(mod, qn, 'backup copied after publishing', f'on the path `{short(repr(r), 140)}` <coredata>{suffix!r} is copied after the new '
                           'coredata.dat was published: the rollback of a failed reconfigure would restore the failed state', _row_node(r, fn))
+        elif any(e not in backup and i < pubs[0] and 'FNAME' in names_in(ast.parse(e[5:], mode='eval')) and not e.startswith(('CALL os.path.', 'CALL pickle.'))
+                 for i, e in enumerate(r.effects)):
+            raise Undecided(f'coredata.save: a call before the publish takes the file and may be the backup; not understood: {r!r}')
         else:
             ctx.violation(mod, qn, f'backup skipped when: {gate}', f'on the path `{short(repr(r), 140)}` an existing coredata.dat is replaced without refreshing '
                           f'<coredata>{suffix!r}: the handler of MesonApp._generate then restores a stale older generation after a failed reconfigure',
                           _row_node(r, fn))
-    ctx.floor('coredata.save: publishing paths', npub, 2)
+    ctx.floor('coredata.save: publishing paths', npub, 1)
 
 
 _R3C_EXAMPLE = '''
@@ -1615,7 +2047,7 @@ def r3c(ctx: RuleCtx) -> None:
     qn = 'MesonApp._generate'
     fn = _inlined(mod, qn)
     res = _r3_analyse(fn, qn)
-    ctx.floor(f'{qn}: guarded writers of cmd_line.txt', res.cmd_writers, 2)
+    ctx.floor(f'{qn}: guarded writers of cmd_line.txt', res.cmd_writers, 1)
     by_handler: T.Dict[ast.ExceptHandler, T.List[T.Tuple[ast.Call, ast.AST]]] = {}
     for c, follower, h in res.exposed:
         by_handler.setdefault(h, []).append((c, follower))
@@ -1756,8 +2188,35 @@ class _R4Result:
         self.counts: T.Dict[str, int] = {}
 
 
+def _unfold_list_comps(fn: ast.AST) -> None:
+    """`x = [E for t in IT if C]` as a statement  ->  `x = []; for t in IT: if C: x.append(E)` (on the analysed copy only)."""
+    for block in _blocks(fn.body):  # type: ignore[attr-defined]
+        i = 0
+        while i < len(block):
+            st = block[i]
+            tv = None
+            if isinstance(st, ast.Assign) and len(st.targets) == 1 and isinstance(st.targets[0], ast.Name):
+                tv = (st.targets[0].id, st.value)
+            elif isinstance(st, ast.AnnAssign) and isinstance(st.target, ast.Name) and st.value is not None:
+                tv = (st.target.id, st.value)
+            if tv and isinstance(tv[1], ast.ListComp) and len(tv[1].generators) == 1 and not tv[1].generators[0].is_async:
+                g = tv[1].generators[0]
+                app: ast.stmt = ast.Expr(value=ast.Call(func=ast.Attribute(value=ast.Name(id=tv[0], ctx=ast.Load()), attr='append', ctx=ast.Load()),
+                                                        args=[tv[1].elt], keywords=[]))
+                if g.ifs:
+                    app = ast.If(test=g.ifs[0] if len(g.ifs) == 1 else ast.BoolOp(op=ast.And(), values=list(g.ifs)), body=[app], orelse=[])
+                new = [ast.Assign(targets=[ast.Name(id=tv[0], ctx=ast.Store())], value=ast.List(elts=[], ctx=ast.Load())),
+                       ast.For(target=g.target, iter=g.iter, body=[app], orelse=[])]
+                for x in new:
+                    ast.fix_missing_locations(ast.copy_location(x, st))
+                block[i:i + 1] = new
+                i += 1
+            i += 1
+
+
 def _r4_analyse(fn: ast.AST, qn: str) -> _R4Result:
     res = _R4Result()
+    _unfold_list_comps(fn)
     pm = _parent_map(fn)
     cfg = CFG(fn)  # type: ignore[arg-type]
     params = _pos_params(fn)
@@ -1855,6 +2314,8 @@ def _r4_analyse(fn: ast.AST, qn: str) -> _R4Result:
                 has_exc_edges = any(lab == 'exc' for _, lab in cfg.succ[n.id])
                 if fin or has_exc_edges:
                     res.ok.append(f'{qn}: `{short(d, 50)}` runs after backup+read and the restore loop is executed on every way out')
+                elif any(w is not tmp[0] for w, f in _contexts(pm, st, (ast.With,)) if f == 'body'):
+                    raise Undecided(f'{qn}: `{short(d, 50)}` runs under a context manager that may do the restoring; not understood')
                 else:
                     res.bad.append((norm(d), f'`{short(d, 60)}` is not inside a try whose finally moves the backups back: a failure while deleting '
                                     'loses cmd_line.txt', d))
@@ -1890,7 +2351,7 @@ def r4(ctx: RuleCtx) -> None:
     qn = 'MesonApp.__init__'
     fn = _inlined(mod, qn, ('add_ignore_files',))
     res = _r4_analyse(fn, qn)
-    for what, mn in (('deletions', 2), ('read_cmd_line_file', 1), ('backup copies', 1), ('restore loops', 1)):
+    for what, mn in (('deletions', 1), ('read_cmd_line_file', 1), ('backup copies', 1), ('restore loops', 1)):
         ctx.floor(f'{qn}: {what}', res.counts.get(what, 0), mn)
     seen: T.Set[T.Tuple[str, str]] = set()
     for c, m, n in res.bad:
@@ -1899,6 +2360,149 @@ def r4(ctx: RuleCtx) -> None:
             ctx.violation(mod, qn, c, m, n)
     for o in dict.fromkeys(res.ok):
         ctx.ok(o)
+
+
+# ---------------------------------------------------------------------------
+# C08.R4b  read_cmd_line_file: the recorded command line is replayed *below* the options of the current command line
+
+def _merge_loops(block: T.List[ast.stmt]) -> None:
+    """`for k, v in X.items(): d[k] = v` -> `d.update(X)`;  `... d.setdefault(k, v)` / `if k not in d: d[k] = v` -> `d.__merge_below__(X)`."""
+    for i, st in enumerate(block):
+        if not (isinstance(st, ast.For) and not st.orelse and len(st.body) == 1):
+            continue
+        il = _items_loop(st)
+        if il is None:
+            continue
+        k, v, src = il
+        b = st.body[0]
+        kind = None
+        recv = None
+        if isinstance(b, ast.Assign) and len(b.targets) == 1 and isinstance(b.targets[0], ast.Subscript) and norm(b.value) == v \
+                and {n for n in names_in(b.targets[0].slice) if n not in ('OptionKey', 'str')} == {k}:     # d[k] = v / d[f(k)] = v
+            kind, recv = 'update', b.targets[0].value
+        elif isinstance(b, ast.Expr) and isinstance(b.value, ast.Call) and call_method(b.value) == 'setdefault' and [norm(a) for a in b.value.args] == [k, v]:
+            kind, recv = '__merge_below__', b.value.func.value  # type: ignore[attr-defined]
+        elif isinstance(b, ast.If) and not b.orelse and len(b.body) == 1 and isinstance(b.body[0], ast.Assign) and len(b.body[0].targets) == 1 \
+                and isinstance(b.body[0].targets[0], ast.Subscript) and norm(b.body[0].targets[0].slice) == k and norm(b.body[0].value) == v \
+                and tables.canon(b.test, True) == (Atom('in', (k, norm(b.body[0].targets[0].value))), False):
+            kind, recv = '__merge_below__', b.body[0].targets[0].value
+        if kind is not None and recv is not None:
+            block[i] = ast.fix_missing_locations(ast.copy_location(
+                ast.Expr(value=ast.Call(func=ast.Attribute(value=recv, attr=kind, ctx=ast.Load()), args=[src], keywords=[])), st))
+
+
+def r4b(ctx: RuleCtx) -> None:
+    mod = _m(ctx, CMDLINE)
+    qn = 'read_cmd_line_file'
+    fn = copy.deepcopy(_inlined(mod, qn))
+    params = _pos_params(fn)
+    if len(params) != 2:
+        raise Undecided(f'{qn}: expected (build_dir, options)')
+    cur = f'{params[1]}.cmd_line_options'
+    for blk in _blocks(fn.body):
+        _merge_loops(blk)
+    parsers = {st.targets[0].id for st in ast.walk(fn) if isinstance(st, ast.Assign) and len(st.targets) == 1 and isinstance(st.targets[0], ast.Name)
+               and isinstance(st.value, ast.Call) and call_method(st.value) == 'CmdLineFileParser'}
+    if len(parsers) != 1:
+        raise Undecided(f'{qn}: the parsed cmd_line.txt is not held in one variable')
+    parser = next(iter(parsers))
+
+    def prio(e: ast.AST, env: T.Dict[str, T.Optional[T.List[str]]]) -> T.Optional[T.List[str]]:
+        """Sources of a mapping expression, lowest priority first; None = not understood."""
+        if isinstance(e, ast.Name):
+            return list(env[e.id]) if env.get(e.id) is not None else None  # type: ignore[arg-type]
+        if norm(e) == cur:
+            return ['current']
+        if isinstance(e, ast.Subscript) and norm(e.value) == parser and isinstance(e.slice, ast.Constant):
+            return ['recorded'] if e.slice.value == 'options' else None
+        if isinstance(e, ast.Dict):
+            out: T.List[str] = []
+            for k_, v_ in zip(e.keys, e.values):
+                if k_ is not None:
+                    return None
+                p_ = prio(v_, env)
+                if p_ is None:
+                    return None
+                out += p_
+            return out
+        if isinstance(e, ast.DictComp) and len(e.generators) == 1 and not e.generators[0].ifs:
+            it = e.generators[0].iter
+            if isinstance(it, ast.Call) and call_method(it) == 'items' and not it.args and isinstance(it.func, ast.Attribute):
+                it = it.func.value
+            return prio(it, env)
+        if isinstance(e, ast.Call) and ((call_name(e) in ('dict', 'OrderedDict') and len(e.args) == 1 and not e.keywords) or
+                                        (call_method(e) == 'copy' and not e.args and isinstance(e.func, ast.Attribute))):
+            return prio(e.args[0] if e.args else e.func.value, env)  # type: ignore[attr-defined]
+        if isinstance(e, ast.BinOp) and isinstance(e.op, ast.BitOr):
+            a, b = prio(e.left, env), prio(e.right, env)
+            return None if a is None or b is None else a + b
+        return None
+
+    nfinal = 0
+    norec: T.List[T.Tuple[str, ast.AST]] = []
+    merged: T.Set[str] = set()
+    for p in paths.enumerate_paths(fn.body, pure={'isfile', 'exists', 'has_section'}):
+        if p.outcome == 'raise':
+            continue
+        env: T.Dict[str, T.Optional[T.List[str]]] = {}
+        for ev in p.events:
+            if ev.kind == 'iter' and ev.val == 'iter':
+                # a loop that was not recognised as a merge: what it mutates is no longer known
+                for n_ in ast.walk(ev.node):
+                    base = n_.value if isinstance(n_, ast.Subscript) and isinstance(n_.ctx, (ast.Store, ast.Del)) else \
+                        (n_.func.value if isinstance(n_, ast.Call) and isinstance(n_.func, ast.Attribute) else None)
+                    if isinstance(base, ast.Name) and base.id in env:
+                        env[base.id] = None
+                continue
+            if ev.kind != 'stmt':
+                continue
+            st = ev.node
+            if isinstance(st, (ast.Assign, ast.AnnAssign)) and getattr(st, 'value', None) is not None:
+                tgts = st.targets if isinstance(st, ast.Assign) else [st.target]
+                if len(tgts) == 1 and isinstance(tgts[0], ast.Name):
+                    env[tgts[0].id] = prio(st.value, env)   # type: ignore[arg-type]
+                elif len(tgts) == 1 and norm(tgts[0]) == cur:
+                    nfinal += 1
+                    got = prio(st.value, env)  # type: ignore[arg-type]
+                    if got is None:
+                        raise Undecided(f'{qn}: cannot tell what `{short(st.value, 70)}` is merged from')  # type: ignore[arg-type]
+                    rec = max((i for i, x in enumerate(got) if x == 'recorded'), default=None)
+                    now = max((i for i, x in enumerate(got) if x == 'current'), default=None)
+                    order = ' < '.join(got) or 'nothing'
+                    if rec is None and now is not None:
+                        norec.append((order, st))       # e.g. the file has no [options] section on this path
+                    elif now is None:
+                        ctx.violation(mod, qn, f'cmd_line_options := merge({order})', f'the options set up after reading cmd_line.txt are merged from [{order}] '
+                                      '(lowest priority first): the options of the current command line are dropped', st)
+                    elif now < rec:
+                        ctx.violation(mod, qn, f'cmd_line_options := merge({order})', f'the options set up after reading cmd_line.txt are merged as [{order}] (lowest '
+                                      'priority first): a value recorded in cmd_line.txt wins over the one given on the current command line, so '
+                                      '`setup --wipe -Dopt=new` keeps the old value', st)
+                    else:
+                        merged.add(order)
+            elif isinstance(st, ast.AugAssign) and isinstance(st.target, ast.Name) and isinstance(st.op, ast.BitOr) and st.target.id in env:
+                a, b = env[st.target.id], prio(st.value, env)
+                env[st.target.id] = None if a is None or b is None else a + b
+            elif isinstance(st, ast.Expr) and isinstance(st.value, ast.Call) and isinstance(st.value.func, ast.Attribute) \
+                    and isinstance(st.value.func.value, ast.Name) and st.value.func.value.id in env:
+                nm, meth = st.value.func.value.id, st.value.func.attr
+                if meth in ('update', '__merge_below__') and len(st.value.args) == 1 and not st.value.keywords:
+                    a, b = env[nm], prio(st.value.args[0], env)
+                    env[nm] = None if a is None or b is None else (a + b if meth == 'update' else b + a)
+                elif meth in ('pop', 'setdefault', 'clear', 'popitem', '__setitem__', '__delitem__'):
+                    env[nm] = None
+            elif isinstance(st, (ast.Delete, ast.Assign)) and any(isinstance(t, ast.Subscript) and isinstance(t.value, ast.Name) and t.value.id in env
+                                                                  for t in getattr(st, 'targets', [])):
+                for t in st.targets:  # type: ignore[union-attr]
+                    if isinstance(t, ast.Subscript) and isinstance(t.value, ast.Name):
+                        env[t.value.id] = None
+    if nfinal == 0:
+        raise Undecided(f'{qn}: no assignment to {cur} found')
+    for order in sorted(merged):
+        ctx.ok(f'{qn}: merge order [{order}] (lowest priority first): the current command line overrides the recorded one')
+    if norec and not merged and not ctx.findings:
+        ctx.violation(mod, qn, f'cmd_line_options := merge({norec[0][0]})', f'on every path the options set up after reading cmd_line.txt are merged from [{norec[0][0]}] '
+                      'only: the recorded command line is never replayed', norec[0][1])
 
 
 # ---------------------------------------------------------------------------
@@ -1916,6 +2520,7 @@ class _R5Path:
         self.process: T.List[T.Tuple[ast.Call, ast.AST, ast.AST]] = []     # original call, resolved receiver, resolved arg
         self.updates: T.List[T.Tuple[ast.Call, ast.AST, ast.AST]] = []     # call, resolved options arg, resolved subproject arg
         self.records: T.List[T.Tuple[ast.AST, ast.AST, ast.AST]] = []      # stmt, resolved key, resolved value
+        self.opaque: T.List[ast.Call] = []                                  # self.m(...) calls that were not analysed in place
         self.text = ''
 
 
@@ -1945,6 +2550,8 @@ def _r5_walk(body: T.List[ast.stmt], p: paths.Path) -> _R5Path:
                     out.process.append((c, recv, _subst(c.args[0], env)))
             elif m == 'update_project_options' and len(c.args) == 2:
                 out.updates.append((c, _subst(c.args[0], env), _subst(c.args[1], env)))
+            elif isinstance(c.func, ast.Attribute) and isinstance(c.func.value, ast.Name) and c.func.value.id == 'self':
+                out.opaque.append(c)
 
     for ev in p.events:
         if ev.kind == 'cond':
@@ -2037,7 +2644,7 @@ def _recorded(rp: _R5Path) -> bool:
 def r5a(ctx: RuleCtx) -> None:
     mod, qn, fn, walked, body = _conf_loop(ctx)
     rec = [rp for rp in walked if _recorded(rp)]
-    ctx.floor(f'{qn}: paths with a usable recorded option file', len(rec), 2)
+    ctx.floor(f'{qn}: paths with a usable recorded option file', len(rec), 1)
     bad: T.Dict[T.Tuple[str, str], ast.AST] = {}
     n = 0
     for rp in rec:
@@ -2115,7 +2722,7 @@ def r5c(ctx: RuleCtx) -> None:
     fn = _inlined(mod, qn)
     ps = paths.enumerate_paths(fn.body, pure={'exists', 'samefile', 'join'})
     walked = [_r5_walk(fn.body, p) for p in ps if p.outcome != 'raise']
-    ctx.floor(f'{qn}: normal paths', len(walked), 3)
+    ctx.floor(f'{qn}: normal paths', len(walked), 2)
     bad: T.Dict[T.Tuple[str, str], ast.AST] = {}
     nproc = 0
     for rp in walked:
@@ -2131,8 +2738,10 @@ def r5c(ctx: RuleCtx) -> None:
         for c, opts, sp in rp.updates:
             if norm(sp) != 'self.subproject':
                 probs.append((norm(c), f'`{short(c, 80)}` updates the options of `{norm(sp)}` instead of self.subproject', c))
-            if not rp.process or norm(opts) != norm(rp.process[-1][1]) + '.options':
+            if rp.process and norm(opts) != norm(rp.process[-1][1]) + '.options':
                 probs.append((norm(c), f'`{short(c, 80)}` does not pass the options read from the processed file', c))
+            elif not rp.process and not (isinstance(opts, ast.Dict) and not opts.keys):
+                probs.append((norm(c), f'`{short(c, 80)}` passes options although no option file was processed on this path', c))
         if rp.process and not rp.updates:
             probs.append((norm(rp.process[0][0]), 'the option file is processed but the store is not updated', rp.process[0][0]))
         if rp.process and len(rp.records) != 1:
@@ -2153,8 +2762,33 @@ def r5c(ctx: RuleCtx) -> None:
             bad.setdefault((c, m), node)
         if not probs:
             ctx.ok(f'{qn}: path `{short(rp.text, 110)}`: ' + ('file under self.subdir processed for self.subproject and recorded' if rp.process else 'no option file, recorded as None'))
-    ctx.floor(f'{qn}: paths that process an option file', nproc, 2)
+    ctx.floor(f'{qn}: paths that process an option file', nproc, 1)
     for (c, m), node in bad.items():
+        ctx.violation(mod, qn, c, m, node)
+
+
+def r5d(ctx: RuleCtx) -> None:
+    """K1: every normal path of _load_option_file brings the store up to date for self.subproject - with the declarations
+    read from the option file, or with none when there is no option file ("a removed option vanishes")."""
+    mod = _m(ctx, IBASE)
+    qn = 'InterpreterBase._load_option_file'
+    fn = _inlined(mod, qn)
+    walked = [_r5_walk(fn.body, p) for p in paths.enumerate_paths(fn.body, pure={'exists', 'samefile', 'join'}) if p.outcome != 'raise']
+    ctx.floor(f'{qn}: normal paths', len(walked), 2)
+    bad: T.Dict[str, T.Tuple[str, ast.AST]] = {}
+    for rp in walked:
+        ups = [u for u in rp.updates if norm(u[2]) == 'self.subproject']
+        if ups:
+            ctx.ok(f'{qn}: path `{short(rp.text, 110)}` updates the store for self.subproject ({"declarations of the file" if rp.process else "no declarations"})')
+            continue
+        if rp.opaque:
+            raise Undecided(f'{qn}: `{short(rp.opaque[0], 60)}` may update the store; not understood')
+        rec = [norm(st) for st, _, _ in rp.records]
+        bad.setdefault('no store update when: ' + (' ; '.join(rec) or 'no option file'),
+                       (f'on the path `{short(rp.text, 120)}` (no option file: {"; ".join(rec) or "nothing recorded"}) update_project_options is not called for '
+                        'self.subproject: options declared by an option file that has since been deleted stay in the store (mconf.Conf.__init__ does call '
+                        'update_project_options({}, sub) in the same situation)', rp.records[0][0] if rp.records else fn))
+    for c, (m, node) in bad.items():
         ctx.violation(mod, qn, c, m, node)
 
 
@@ -2162,6 +2796,7 @@ RULES = [
     Rule('C08.R1', '-D/-U decision table of set_from_configure_command', r1),
     Rule('C08.R1b', 'cmd_line.txt: -D recorded as str(value), -U (value is None) erases', r1b),
     Rule('C08.R2a', 'update_project_options: new / redeclared / unchanged keys', r2a),
+    Rule('C08.R2d', 'update_project_options: a replaced declaration gets the parent link a new one gets', r2d),
     Rule('C08.R2b', 'update_project_options: undeclared keys of this subproject are removed', r2b),
     Rule('C08.R2c', 'choices_are_different: symmetric projections covering choices/min_value/max_value', r2c),
     Rule('C08.R3a', 'setup: writers after the coredata dump are guarded by the restoring handler', r3a),
@@ -2169,7 +2804,9 @@ RULES = [
     Rule('C08.R3b', 'configure: persisted only after the options were applied', r3b),
     Rule('C08.R3c', 'setup: cmd_line.txt is not left rewritten by a failing configuration', r3c),
     Rule('C08.R4', '--wipe: backup + read before deleting, restore in finally', r4),
+    Rule('C08.R4b', 'read_cmd_line_file: current command line overrides the recorded one', r4b),
     Rule('C08.R5a', 'mconf: recorded option file of the subproject is the one reloaded', r5a),
     Rule('C08.R5b', 'mconf: no recorded file - nothing foreign is loaded for the subproject', r5b),
     Rule('C08.R5c', 'interpreter: option file comes from the subproject directory', r5c),
+    Rule('C08.R5d', 'interpreter: the store is updated for the subproject also when there is no option file', r5d),
 ]
